@@ -367,5 +367,15 @@ func checkTreeDeleted(ctx context.Context, treeId string, spaceStorage spacestor
 	if status.DeletedStatus != headstorage.DeletedStatusNotDeleted {
 		return spacestorage.ErrTreeStorageAlreadyDeleted
 	}
+	// A bound child shares the fate of its parent. The deletion worker removes the storage of a
+	// bound child before the child itself gets a deleted status (deleteBoundChildren), so without
+	// this a head update, put or fetch arriving in between recreated the child, which then ended
+	// up Deleted with its changes stored.
+	if status.ParentId != "" {
+		parent, parentErr := spaceStorage.HeadStorage().GetEntry(ctx, status.ParentId)
+		if parentErr == nil && parent.DeletedStatus != headstorage.DeletedStatusNotDeleted {
+			return spacestorage.ErrTreeStorageAlreadyDeleted
+		}
+	}
 	return nil
 }
